@@ -19,7 +19,7 @@ def classify(line):
 CFG = dict(
     imports=["From Verif.C32 Require Import Model Spec."],
     checker="check_case",
-    n=dict(quick=160, thorough=6000),
+    n=dict(quick=160, thorough=1920),
     shard=40,
     rule="random interleavings (10-44 ops) of AddFlow (now bucket, future bucket, late, boundary instants, too old, too far "
          "ahead), Rollover with/without sink, sink attach (EmitFlowCollections), List and Statistics over bucket-aligned, "
